@@ -336,7 +336,8 @@ SskrPickMoreA == \E dst \in Reg, src \in Full :
                    /\ Call("sskr_pick_more", dst, <<src, sh[2][2], x[1], x[2]>>,
                            Ok(ShareEnvelope(RemoveAssertion(reg[src], Assn(KV(KvSskrShare), sh)),
                                             sh[2][2], x[1], x[2], sh[2][5], sh[2][6])))
-SskrJoinRegsA == \E dst \in Reg : \E rs \in {<<a>> : a \in Full} \cup {<<x[1], x[2]>> : x \in {y \in Full \X Full : y[1] # y[2]}} :
+SskrJoinRegsA == \E dst \in Reg : \E rs \in {<<a>> : a \in Full} \cup {<<x[1], x[2]>> : x \in {y \in Full \X Full : y[1] # y[2]}}
+                                          \cup {<<x[1], x[2], x[3]>> : x \in {y \in Full \X Full \X Full : y[1] # y[2] /\ y[1] # y[3] /\ y[2] # y[3]}} :
               (* the same share presented twice is outside "a subset of the share envelopes" *)
               /\ \A i \in 1..Len(rs), j \in 1..Len(rs) : i # j =>
                     SharesIn(<<reg[rs[i]]>>) \cap SharesIn(<<reg[rs[j]]>>) = {}
@@ -364,7 +365,7 @@ ObsTypes == \E src \in Full, t \in TypeVals :
                         has |-> HasType(reg[src], t),
                         get |-> LET r == GetType(reg[src]) IN IF IsOk(r) THEN Ok(Dg(Val(r))) ELSE r ])
 Vendors == {"v1", "v2"}
-Conforms == {NoStr, "c1", "c2"}
+Conforms == {NoStr, "c1", ""}   \* the empty string is a value, not an absence
 AddAttachmentA == \E dst \in Reg, src \in Full, rp \in Full, v \in Vendors, c \in Conforms :
               Call("add_attachment", dst, <<src, rp, v, c>>, AddAssertionEnv(reg[src], AttachmentAssn(reg[rp], v, c)))
 (* the Attachments container (attachments.rs): a digest-keyed collection, added to an envelope at once *)
